@@ -256,17 +256,18 @@ Qed.
 
 Theorem pstep_total : forall cfg st e p, pcfg_ok cfg -> total p (fst (pstep cfg st e)) = total p st.
 Proof.
-  intros cfg st e p Hok. destruct e as [|i|i k o|i|i|].
+  intros cfg st e p Hok. destruct e as [|i lg|i k o|i|i|].
   - (* PConnect *) unfold total. cbn [pstep fst pp_pool pp_sess pp_lost]. rewrite sumf_app.
     cbn [sumf sports p_passive p_inflight opt_list map app occ]. lia.
   - (* Pasv *)
     cbn [pstep]. destruct (plive st i) as [s|] eqn:El; [|reflexivity].
     apply plive_some in El as [Hn Hl].
-    destruct (p_passive s) as [q|] eqn:Hp; [reflexivity|].
+    destruct (p_passive s) as [q|] eqn:Hp.
+    { destruct (pc_ipv6 cfg && lg); cbn [fst]; [apply end_psess_total; assumption|reflexivity]. }
     destruct (loop_head (pc_hier cfg) (pp_pool st) []) as [pool' su|pool' lost] eqn:Eh; cbn [fst].
     + rewrite (total_set_pool p st i s _ pool' [] Hn).
       pose proof (loop_head_start _ _ _ _ _ p Eh) as E. unfold total, sports. cbn [p_passive p_inflight opt_list app occ].
-      rewrite Hp, map_app, !occ_app. cbn [opt_list map occ app]. lia.
+      rewrite Hp, map_app, !occ_app. cbn [opt_list map occ app mark su_port]. lia.
     + rewrite end_psess_total by assumption. unfold total, with_pool. cbn [pp_pool pp_sess pp_lost].
       rewrite occ_app, (loop_head_exit _ _ _ _ _ p Eh). lia.
   - (* Resume *)
@@ -285,7 +286,7 @@ Proof.
         -- rewrite (total_set_pool p st i s _ pool2 [] Hn).
            pose proof (loop_head_start _ _ _ _ _ p Eh) as E. rewrite occ_put in E. cbn [snd] in E.
            unfold total, sports. cbn [p_passive p_inflight occ].
-           rewrite !occ_app, (occ_replace_nth p _ k su su' Ek). lia.
+           rewrite !occ_app, (occ_replace_nth p _ k su _ Ek). cbn [mark su_port]. lia.
         -- rewrite end_psess_total by assumption.
            rewrite (total_set_pool p st i s _ pool2 lost Hn).
            pose proof (loop_head_exit _ _ _ _ _ p Eh) as E. rewrite occ_put in E. cbn [snd] in E.
@@ -297,13 +298,15 @@ Proof.
         unfold total, sports. cbn [p_passive p_inflight occ].
         rewrite !occ_app, (occ_remove_nth p _ k su Ek). lia.
     + (* completion *)
-      destruct (pc_recheck cfg && match p_passive s with Some _ => true | None => false end).
-      * cbn [fst]. unfold total. cbn [pp_pool pp_sess pp_lost].
-        rewrite (sumf_upd _ _ _ _ _ Hn), occ_put. unfold sports. cbn [p_passive p_inflight opt_list snd].
-        rewrite !occ_app, (occ_remove_nth p _ k su Ek). lia.
-      * cbn [fst]. unfold total. cbn [pp_pool pp_sess pp_lost].
-        rewrite (sumf_upd _ _ _ _ _ Hn). unfold sports. cbn [p_passive p_inflight opt_list].
-        rewrite !occ_app, (occ_remove_nth p _ k su Ek). cbn [app occ]. lia.
+      match goal with |- total p (fst (v6_reply _ _ _ ?r)) = _ => assert (Hin : total p (fst r) = total p st) end.
+      { destruct (pc_recheck cfg && match p_passive s with Some _ => true | None => false end).
+        * cbn [fst]. unfold total. cbn [pp_pool pp_sess pp_lost].
+          rewrite (sumf_upd _ _ _ _ _ Hn), occ_put. unfold sports. cbn [p_passive p_inflight opt_list snd].
+          rewrite !occ_app, (occ_remove_nth p _ k su Ek). lia.
+        * cbn [fst]. unfold total. cbn [pp_pool pp_sess pp_lost].
+          rewrite (sumf_upd _ _ _ _ _ Hn). unfold sports. cbn [p_passive p_inflight opt_list].
+          rewrite !occ_app, (occ_remove_nth p _ k su Ek). cbn [app occ]. lia. }
+      unfold v6_reply. destruct (pc_ipv6 cfg && su_legacy su); cbn [fst]; [rewrite end_psess_total by assumption|]; exact Hin.
   - reflexivity.
   - cbn. apply end_psess_total; assumption.
   - cbn. apply end_all_total; assumption.
@@ -443,15 +446,17 @@ Theorem pstep_calm : forall cfg st e,
   pcfg_ok cfg -> pc_hier cfg = true -> calm st -> quiet_ev cfg st e = true ->
   calm (fst (pstep cfg st e)).
 Proof.
-  intros cfg st e Hok Hh Hc Hq. destruct e as [|i|i k o|i|i|].
+  intros cfg st e Hok Hh Hc Hq. destruct e as [|i lg|i k o|i|i|].
   - (* PConnect *) constructor; cbn; try apply Hc.
     apply Forall_app. split; [apply Hc|]. constructor; [|constructor].
     solve_calm.
   - (* Pasv *)
     cbn [pstep]. destruct (plive st i) as [s|] eqn:El; [|assumption].
     apply plive_some in El as [Hn Hl].
-    destruct (p_passive s) as [q|] eqn:Hp; [assumption|].
-    cbn [quiet_ev] in Hq. unfold no_inflight in Hq. rewrite Hn in Hq.
+    cbn [quiet_ev] in Hq.
+    destruct (p_passive s) as [q|] eqn:Hp.
+    { destruct (pc_ipv6 cfg && lg); cbn [fst]; [apply end_psess_calm; assumption|assumption]. }
+    unfold no_inflight in Hq. rewrite Hn in Hq.
     destruct (p_inflight s) eqn:Ei; [|discriminate].
     rewrite Hh. destruct (loop_head true (pp_pool st) []) as [pool' su|pool' lost] eqn:Eh; cbn [fst app].
     + apply calm_set; [assumption|]. solve_calm.
@@ -482,10 +487,15 @@ Proof.
       * cbn [fst]. apply end_psess_calm; [assumption| |].
         -- apply calm_set; [assumption|]. solve_calm.
         -- apply no_inflight_set; auto.
-    + rewrite andb_false_r. cbn [fst opt_list]. constructor; cbn [pp_lost pp_orphans pp_sess].
-      * rewrite (calm_lost _ Hc). reflexivity.
-      * rewrite (calm_orph _ Hc). reflexivity.
-      * apply Forall_upd; [apply Hc|]. solve_calm.
+    + rewrite andb_false_r. cbn [opt_list].
+      match goal with |- calm (fst (v6_reply _ _ _ ?r)) => assert (Hin : calm (fst r)) end.
+      { cbn [fst]. constructor; cbn [pp_lost pp_orphans pp_sess].
+        * rewrite (calm_lost _ Hc). reflexivity.
+        * rewrite (calm_orph _ Hc). reflexivity.
+        * apply Forall_upd; [apply Hc|]. solve_calm. }
+      unfold v6_reply. destruct (pc_ipv6 cfg && su_legacy su); cbn [fst] in *; [|exact Hin].
+      apply end_psess_calm; [assumption|exact Hin|].
+      unfold no_inflight. cbn [pp_sess]. rewrite (nth_error_upd_same _ _ _ _ Hn). reflexivity.
   - assumption.
   - cbn. cbn [quiet_ev] in Hq. apply orb_true_iff in Hq as [Hg|Hq];
       [apply end_psess_calm_gb|apply end_psess_calm]; assumption.
@@ -620,22 +630,26 @@ Proof.
   destruct (snd x =? q) eqn:E; [left; symmetry; now apply Z.eqb_eq|right; apply occ_pos_In; cbn [b2z] in H; lia].
 Qed.
 
+Lemma su_ok_mark : forall cfg b su, su_ok cfg su -> su_ok cfg (mark b su).
+Proof. intros cfg b su H. exact H. Qed.
+
 Theorem pstep_viewed : forall cfg st e,
   (forall p, total p st = occ p (pc_ports cfg)) -> viewed_ok cfg st ->
   viewed_ok cfg (fst (pstep cfg st e)).
 Proof.
-  intros cfg st e Ht Hv. destruct e as [|i|i k o|i|i|].
+  intros cfg st e Ht Hv. destruct e as [|i lg|i k o|i|i|].
   - unfold viewed_ok. cbn. apply Forall_app. split; [assumption|]. repeat constructor.
   - cbn [pstep]. destruct (plive st i) as [s|] eqn:El; [|assumption].
     apply plive_some in El as [Hn Hl].
-    destruct (p_passive s) as [q|] eqn:Hp; [assumption|].
+    destruct (p_passive s) as [q|] eqn:Hp.
+    { destruct (pc_ipv6 cfg && lg); cbn [fst]; [apply end_psess_viewed|]; assumption. }
     destruct (loop_head (pc_hier cfg) (pp_pool st) []) as [pool' su|pool' lost] eqn:Eh; cbn [fst].
     + destruct (loop_head_start_ok cfg _ _ _ _ _ Eh) as (Hsu & _ & _).
       * constructor.
       * intros q [].
       * intros q Hq. eapply pool_in_configured; eassumption.
       * unfold viewed_ok. cbn. apply Forall_upd; [assumption|]. cbn.
-        apply Forall_app. split; [exact (Forall_nth_error _ _ _ _ Hv Hn)|repeat constructor; apply Hsu].
+        apply Forall_app. split; [exact (Forall_nth_error _ _ _ _ Hv Hn)|constructor; [apply su_ok_mark, Hsu|constructor]].
     + apply end_psess_viewed. assumption.
   - cbn [pstep]. destruct (plive st i) as [s|] eqn:El; [|assumption].
     apply plive_some in El as [Hn Hl].
@@ -652,14 +666,16 @@ Proof.
            { intros q Hq. apply In_put in Hq as [->|Hq]; cbn [snd]; [auto|].
              eapply pool_in_configured; eassumption. }
            unfold viewed_ok. cbn. apply Forall_upd; [assumption|]. cbn.
-           apply Forall_replace_nth; assumption.
+           apply Forall_replace_nth; [assumption|apply su_ok_mark; assumption].
         -- apply end_psess_viewed. unfold viewed_ok. cbn. apply Forall_upd; [assumption|]. cbn.
            apply Forall_remove_nth; assumption.
       * cbn [fst]. apply end_psess_viewed. unfold viewed_ok. cbn. apply Forall_upd; [assumption|]. cbn.
         apply Forall_remove_nth; assumption.
-    + destruct (pc_recheck cfg && match p_passive s with Some _ => true | None => false end);
-        cbn [fst]; unfold viewed_ok; cbn; (apply Forall_upd; [assumption|]); cbn;
-        apply Forall_remove_nth; assumption.
+    + match goal with |- viewed_ok cfg (fst (v6_reply _ _ _ ?r)) => assert (Hin : viewed_ok cfg (fst r)) end.
+      { destruct (pc_recheck cfg && match p_passive s with Some _ => true | None => false end);
+          cbn [fst]; unfold viewed_ok; cbn; (apply Forall_upd; [assumption|]); cbn;
+          apply Forall_remove_nth; assumption. }
+      unfold v6_reply. destruct (pc_ipv6 cfg && su_legacy su); cbn [fst]; [apply end_psess_viewed|]; exact Hin.
   - assumption.
   - cbn. apply end_psess_viewed; assumption.
   - cbn. apply end_all_viewed; assumption.
@@ -699,10 +715,10 @@ Proof.
 Qed.
 
 (* exhaustion is answered with 421 and ends the session *)
-Lemma exhaustion_421 : forall cfg st i s,
+Lemma exhaustion_421 : forall cfg st i lg s,
   plive st i = Some s -> p_passive s = None -> pp_pool st = [] ->
-  snd (pstep cfg st (Pasv i)) = [(i, 421)].
-Proof. intros cfg st i s Hl Hp He. cbn. rewrite Hl, Hp, He. reflexivity. Qed.
+  snd (pstep cfg st (Pasv i lg)) = [(i, 421)].
+Proof. intros cfg st i lg s Hl Hp He. cbn. rewrite Hl, Hp, He. reflexivity. Qed.
 
 (* ------------------------------------------------------------------ the repaired source loses nothing, ever *)
 (* pc_giveback: cancellation inside the start-up gives the port back and closes what is bound;
@@ -756,11 +772,12 @@ Theorem pstep_clean : forall cfg st e,
   pcfg_ok cfg -> pc_hier cfg = true -> pc_giveback cfg = true -> pc_recheck cfg = true ->
   clean st -> clean (fst (pstep cfg st e)).
 Proof.
-  intros cfg st e Hok Hh Hg Hr Hc. destruct e as [|i|i k o|i|i|].
+  intros cfg st e Hok Hh Hg Hr Hc. destruct e as [|i lg|i k o|i|i|].
   - constructor; cbn; try apply Hc.
     apply Forall_app. split; [apply Hc|]. constructor; [apply live_clean|constructor].
   - cbn [pstep]. destruct (plive st i) as [s|] eqn:El; [|assumption].
-    destruct (p_passive s) as [q|] eqn:Hp; [assumption|].
+    destruct (p_passive s) as [q|] eqn:Hp.
+    { destruct (pc_ipv6 cfg && lg); cbn [fst]; [apply end_psess_clean|]; assumption. }
     rewrite Hh. destruct (loop_head true (pp_pool st) []) as [pool' su|pool' lost] eqn:Eh; cbn [fst].
     + apply clean_set; [assumption|apply live_clean].
     + apply loop_head_exit_hier in Eh as ->. apply end_psess_clean; auto.
@@ -777,13 +794,15 @@ Proof.
         -- apply loop_head_exit_hier in Eh as ->. apply end_psess_clean; auto.
            apply clean_set; [assumption|apply live_clean].
       * cbn [fst]. apply end_psess_clean; auto. apply clean_set; [assumption|apply live_clean].
-    + rewrite Hr. destruct (p_passive s) as [q|] eqn:Hp; cbn [andb fst opt_list].
-      * constructor; cbn [pp_lost pp_orphans pp_sess]; try apply Hc.
-        apply Forall_upd; [apply Hc|apply live_clean].
-      * constructor; cbn [pp_lost pp_orphans pp_sess].
-        -- rewrite (clean_lost _ Hc). reflexivity.
-        -- rewrite (clean_orph _ Hc). reflexivity.
-        -- apply Forall_upd; [apply Hc|apply live_clean].
+    + match goal with |- clean (fst (v6_reply _ _ _ ?r)) => assert (Hin : clean (fst r)) end.
+      { rewrite Hr. destruct (p_passive s) as [q|] eqn:Hp; cbn [andb fst opt_list].
+        * constructor; cbn [pp_lost pp_orphans pp_sess]; try apply Hc.
+          apply Forall_upd; [apply Hc|apply live_clean].
+        * constructor; cbn [pp_lost pp_orphans pp_sess].
+          -- rewrite (clean_lost _ Hc). reflexivity.
+          -- rewrite (clean_orph _ Hc). reflexivity.
+          -- apply Forall_upd; [apply Hc|apply live_clean]. }
+      unfold v6_reply. destruct (pc_ipv6 cfg && su_legacy su); cbn [fst]; [apply end_psess_clean; auto|exact Hin].
   - assumption.
   - cbn. apply end_psess_clean; assumption.
   - cbn. apply end_all_clean; assumption.
